@@ -76,6 +76,17 @@ add("C02", "exploration",
     "deterministic simulation of the inference stream with an ideal-network stub and content-decoding oracle",
     "DESIGN.md section 5 C02")
 
+add("C03", "exploration",
+    "Seeded tree skeletons x well-separated animals with missing nodes x sizes x scale x (confmap stride, PAF stride) x refinement x batch through the simulated inference stream with BottomUpPredictor; the stub network returns the repository's own training targets for the keypoints it locates in the image it is handed (closing the train/inference loop); predicted instances must equal the connected components of each labelled animal, within the C02 tolerance, nothing extra.",
+    "Scenario class fixed from first principles (PAF sigma rule, separation, analytic own>=0.6 / cross<=0.1 pre-check written in the harness); schedules/faults are irrelevant to this property and only varied because it is free.",
+    "deterministic simulation of the inference stream with an ideal confmap+PAF stub built from the repo's target generators",
+    "DESIGN.md section 5 C03")
+add("C12", "exploration",
+    "Refinement check: every seeded plan is executed as a batched stream (real reader thread, SimQueue, real _predict_generator and inference models), as per-frame runs on fresh predictors, and in a permuted order; per frame the instances, values, scores and indices must agree within 1e-4; empty frames, partial last batches, read faults that cut the stream, two-video label files and binding max_instances are stratified in.",
+    "Stub networks are pure per-sample functions so any dependence found is sleap-nn's; bottom-up max_instances (make_labels path) not checkable here.",
+    "deterministic simulation: batched stream vs per-frame reference runs (refinement against a sequential reference)",
+    "DESIGN.md section 5 C12")
+
 PENDING = ["C02","C03","C04","C09","C10","C11","C12","C14","C18","C19"]
 
 def main():
